@@ -115,3 +115,30 @@ fn c07_formula_lp_dim2() {
     kani::cover!(a[0] != b[0] && a[1] != b[1] && d > 0.0);
     kani::cover!(p == 3.5);
 }
+
+// Quick companion of c07_formula_lp_dim2 (added after seeded change C07-1): whatever reduced form a metric uses, range filtering
+// and pruning compare `rdistance(a, b)` with `dist_to_rdist(r)`, so the two must be the SAME function of the distance:
+//   rdistance(a, b) == dist_to_rdist(distance(a, b))   and   rdist_to_dist(rdistance(a, b)) == distance(a, b)
+// (powf uninterpreted but functional: equal arguments give equal results, unequal ones are unrelated)
+// @unit class=bounded tier=quick mem=light timeout=600 bound="dim=1,p=q/2 q in 2..8" fns=linfa_nn::distance::LpDist::distance,linfa_nn::distance::LpDist::rdistance,linfa_nn::distance::LpDist::dist_to_rdist,linfa_nn::distance::LpDist::rdist_to_dist
+#[kani::proof]
+#[kani::unwind(7)]
+#[kani::stub(alloc::fmt::format, fmt_stub)]
+#[kani::stub(f32::powf, ghost_powf32)]
+fn c07_link_lp_dim1() {
+    let (a, b): (f32, f32) = (kani::any(), kani::any());
+    kani::assume(a.is_finite() && b.is_finite());
+    let q: u8 = kani::any();
+    kani::assume(q >= 2 && q <= 8);
+    let p: f32 = q as f32 / 2.0;
+    let (pa, pb) = (arr1(&[a]), arr1(&[b]));
+    let m = LpDist::new(p);
+    let d: f32 = m.distance(pa.view(), pb.view());
+    let rd: f32 = m.rdistance(pa.view(), pb.view());
+    let conv: f32 = <LpDist<f32> as Distance<f32>>::dist_to_rdist(&m, d);
+    let back: f32 = <LpDist<f32> as Distance<f32>>::rdist_to_dist(&m, rd);
+    assert!(rd.to_bits() == conv.to_bits());
+    assert!(back.to_bits() == d.to_bits());
+    kani::cover!(a != b && d > 0.0);
+    kani::cover!(p == 1.5);
+}
